@@ -1322,7 +1322,7 @@ def r12(cx):
                                  'was blocked before blocked while the child is forked' % op, loc=bb.loc(t))
                 if op == 'Add' and sigs != {'SIGINT', 'SIGQUIT'}:
                     cx.violation(fnb, 'block-signals', 'block_sigint_sigquit must add exactly SIGINT and SIGQUIT to the mask, found %s' % sorted(sigs), loc=bb.loc(t))
-            if 'Add' not in ops:
+            if 'Add' not in ops and all(o == 'none' for o in ops):
                 cx.violation(fnb, 'block-op-missing', 'block_sigint_sigquit no longer adds SIGINT/SIGQUIT to the signal mask (SigmaskOp::Add)', loc=bb.loc(bb.d))
             taint = Q.forward_taint(bb, set(olds), through_calls=MASK_FLOW) if olds else set()
             if not oks:
@@ -1423,3 +1423,10 @@ def r12(cx):
             if not (len(t['a']) > 1 and Q.operand_local(t['a'][1]) in tb):
                 cx.violation(CONFIG_START, 'restore-arg-not-saved-mask', 'Config::start restores a signal mask that is not the value returned by its '
                              'block_sigint_sigquit call', loc=body.loc(t))
+
+
+RS.explanation += (' Added after wave 3: every holder of a fresh pipe() pair outside the pipeline code (the command substitution) has closed both ends '
+                   'on every exit after a successful pipe(), following each descriptor into the functions it is handed to (R11); for every implementation '
+                   'of BlockSignals the block step adds {SIGINT, SIGQUIT} and returns the previous mask written by that sigmask call, the restore step '
+                   'installs exactly that value with SigmaskOp::Set on every path, delegating implementations pass it through, and Config::start '
+                   'restores the value it saved (R12).')
